@@ -67,22 +67,22 @@ theorem strict_orJoin (rs : List Rx) (h : ∀ r ∈ rs, Strict r) : Strict (.grp
 
 theorem strict_rep {r : Rx} (h : Strict r) (lo hi : Nat) (hlo : 1 ≤ lo) : Strict (.rep r lo hi) := by
   intro e s x hx
-  have hx' := mem_rep.mp hx
+  have hx' : x ∈ iterG r.run lo hi none e s := mem_rep.mp hx
   cases hi with
   | zero =>
-    simp only [iter] at hx'
+    rw [iterG_hi_zero] at hx'
     split at hx'
     · omega
     · cases hx'
   | succ n =>
-    simp only [iter, List.mem_append, List.mem_flatMap] at hx'
-    rcases hx' with ⟨y, hy, hx2⟩ | h0
-    · have := h e s y hy
-      have := suffix_length_le (iter_suffix r.run (run_suffix r) _ _ _ _ x hx2)
+    cases lo with
+    | zero => omega
+    | succ lo =>
+      simp only [iterG, List.mem_flatMap] at hx'
+      obtain ⟨y, hy, hx2⟩ := hx'
+      have := h e s y hy
+      have := suffix_length_le (iterG_suffix r.run (run_suffix r) _ _ _ _ _ x hx2)
       omega
-    · split at h0
-      · omega
-      · cases h0
 
 theorem strict_withTimes {r : Rx} (h : Strict r) (t : Times) (hlo : 1 ≤ t.lo) : Strict (withTimes r t) := by
   unfold withTimes; split
